@@ -299,13 +299,15 @@ def run(ctx):
            "  MaxIdx = %d\n" % (4 if thorough else 3))
     if r.error:
         raise vlib.Inconclusive("IndexSearchMC: %s" % r.error)
+    AS_IS = "BackwardsFailsOutsideWindow"
+    runs = [("mc_w1", consts(3, 1, maxwrite=1, spans="{0, 1}", anyfile=True, maxfiles=2, maxfilesize=3), AS_IS),
+            ("mc_w1del", consts(3, 1, maxwrite=1, spans="{1}", deletes=True, maxfiles=2, maxfilesize=3), AS_IS),
+            ("mc_w2", consts(2, 2, maxwrite=1, spans="{1}", anyfile=True, maxptrs=2, maxfilesize=3), AS_IS),
+            ("mc_fixed", consts(3, 1, spans="{0, 1}", fix=True, maxptrs=2, maxfiles=2), "BackwardsFails")]
     if thorough:
-        runs = [("mc_asis", consts(4, 2, spans="{0, 1}", anyfile=True), "BackwardsFailsOutsideWindow"),
-                ("mc_del", consts(4, 2, spans="{1}", anyfile=False, deletes=True, maxfiles=3), "BackwardsFailsOutsideWindow"),
-                ("mc_fixed", consts(4, 1, spans="{0, 1}", fix=True), "BackwardsFails")]
-    else:
-        runs = [("mc_asis", consts(3, 2, spans="{0, 1}", anyfile=True), "BackwardsFailsOutsideWindow"),
-                ("mc_fixed", consts(4, 1, spans="{0, 1}", fix=True), "BackwardsFails")]
+        runs += [("mc_w1big", consts(3, 1, spans="{0, 1}", anyfile=True), AS_IS),
+                 ("mc_w1delbig", consts(3, 1, spans="{1}", deletes=True), AS_IS),
+                 ("mc_w2big", consts(3, 2, maxwrite=1, spans="{1}", maxptrs=2, maxfilesize=3), AS_IS)]
     for name, c, back in runs:
         r = mc(name, "DomainIndex", mc_cfg(c, back))
         if r.violated:
@@ -313,7 +315,7 @@ def run(ctx):
             # below is); but the design run is then not evidence either.
             ctx.notes.append("design: %s violated in %s" % (r.violated, name))
     # the named deviation must be visible as is (else the spec no longer models the code)
-    r = mc("mc_window", "DomainIndex", mc_cfg(consts(4, 1, spans="{1}"), "BackwardsFails"), expect_violation=True)
+    r = mc("mc_window", "DomainIndex", mc_cfg(consts(3, 1, spans="{1}", maxptrs=2, maxfiles=2), "BackwardsFails"), expect_violation=True)
     if r.violated != "BackwardsFails":
         ctx.notes.append("design: Window_BackwardsAtRollover not reachable as is (violated=%s)" % r.violated)
 
